@@ -236,6 +236,25 @@ func c12Jobs(tier string) []*Job {
 			}
 		}
 	}
+	// the proposals of views 0 and 1 share a transaction that is missing for both, and the application notifies the
+	// library (OnTransaction) before the transaction becomes visible to GetTx: what was supplied for the abandoned
+	// proposal is requested again for the new one inside the same call
+	for _, a := range []int64{-1, 0} {
+		for _, miss := range [][]H{{103}, {102, 103}, {101, 102, 103}} {
+			for _, bad := range []bool{false, true} {
+				sp := E2Spec{Views: 2, Proposals: "A", Responses: "A", RespPeers: 2, CVs: 1, CVViews: 1, NotifyFirst: true, TxA: all, TxA1: []H{103, 104}, MaxDepth: 16, StateCap: cap}
+				sc := e2scen(fmt.Sprintf("C12-shared-tx-missing%d-bad%v-notify-first-%s", len(miss), bad, amevName(a)), 4, 2, a, sp)
+				sc.Pool = []H{101, 102, 103, 104, 105}
+				sc.TxPerBlock = 3
+				sc.Missing = map[int][]H{2: append(append([]H{}, miss...), 104)}
+				sc.BadTx = map[int][]H{}
+				if bad {
+					sc.BadTx[2] = []H{102}
+				}
+				jobs = append(jobs, job(sc, per))
+			}
+		}
+	}
 	// N=7 (M=5): one stratum
 	sp := E2Spec{Views: 2, Proposals: "A", Responses: "A", CVs: 1, TxA: all, TxA1: []H{104, 105}, MaxDepth: 12, StateCap: cap, Peers: []int{1, 2, 3, 4, 5}}
 	sc := e2scen("C12-N7-missing011-bad", 7, 0, -1, sp)
@@ -347,6 +366,42 @@ func c05Jobs(tier string) []*Job {
 			sc.Twin = true
 			sc.Missing, sc.BadTx = map[int][]H{}, map[int][]H{}
 			jobs = append(jobs, job(sc, per))
+		}
+	}
+	// narrow stratum that reaches a decision *after* recovery traffic (bundles incl. one from a higher view, received
+	// before and after the own commit), then Reset: flags such as `recovering` are per-call state and must not survive
+	for _, a := range []int64{-1, 0} {
+		pc := ""
+		if a >= 0 {
+			pc = "A"
+		}
+		spr := E2Spec{Views: 1, Proposals: "A", Responses: "A", RespPeers: 2, Commits: "A", PreCommits: pc, Bundles: true, Heights: 2, MaxDepth: 12, StateCap: cap}
+		scr := e2scen("C05-twin-N4-x2-recovery-then-decide-"+amevName(a), 4, 2, a, spr)
+		scr.Twin = true
+		scr.Missing, scr.BadTx = map[int][]H{}, map[int][]H{}
+		jobs = append(jobs, job(scr, per))
+	}
+	// watch-only observers (flag set at a validator index / not in the list) re-initialise like everybody else: early
+	// payloads of the next height are taken into account, nothing of the old height survives
+	for _, a := range []int64{-1, 0} {
+		pc := ""
+		if a >= 0 {
+			pc = "A"
+		}
+		for _, outside := range []bool{false, true} {
+			spw := E2Spec{Views: 1, Proposals: "A", Responses: "A", RespPeers: 3, Commits: "A", PreCommits: pc, CVs: 1, NextHeight: true, Skip: true, Heights: 2, MaxDepth: 14, StateCap: cap}
+			if outside {
+				spw.CVs = 0
+				spw.Responses = ""
+			}
+			name := "C05-twin-watchflag-x2-" + amevName(a)
+			if outside {
+				name = "C05-twin-outside-" + amevName(a)
+			}
+			scw := e2WatchScen(name, 4, 2, outside, a, false, 4, spw)
+			scw.Twin = true
+			scw.Missing, scw.BadTx = map[int][]H{}, map[int][]H{}
+			jobs = append(jobs, job(scw, per))
 		}
 	}
 	// validator set changes size, membership and X's own index between heights
